@@ -20,6 +20,9 @@ type Config struct {
 	Alias bool `json:"alias,omitempty"` // storage hands out engine-owned slices
 	Lazy  bool `json:"lazy,omitempty"`  // cursor snapshot taken at first Seek/Next
 	Bind  bool `json:"bind,omitempty"`  // bind the query text to returned errors before rendering them (README usage)
+	// ClearCtx: the caller calls ctx.Clear() after every poll, as the loop in
+	// examples/memkv does (the other half of the scenarios do not)
+	ClearCtx bool `json:"clear_ctx,omitempty"`
 }
 
 type Stmt struct {
@@ -230,6 +233,9 @@ func execStmt(h *Handle, idx int, st Stmt, cfg Config) (res StmtRes) {
 			}
 			pr.NRows = 1
 			pr.Rows = [][]string{canonRow(row)}
+			if cfg.ClearCtx {
+				ctx.Clear()
+			}
 			return pr, false
 		}
 		rows, err := plan.Batch(ctx)
@@ -253,6 +259,9 @@ func execStmt(h *Handle, idx int, st Stmt, cfg Config) (res StmtRes) {
 		pr.Rows = make([][]string, len(rows))
 		for i, r := range rows {
 			pr.Rows[i] = canonRow(r)
+		}
+		if cfg.ClearCtx {
+			ctx.Clear()
 		}
 		return pr, false
 	}
